@@ -1,0 +1,46 @@
+//go:build verif
+
+package bloomsearch
+
+// Verification hooks (build tag "verif" only). They observe; they never change
+// what the store does.
+
+import "sync/atomic"
+
+// VerifFSEvent describes one filesystem mutation of FileSystemDataStore. Every
+// mutation is reported twice, synchronously on the goroutine performing it:
+// Phase "before" immediately before the system call and Phase "after"
+// immediately after it (whether or not it succeeded).
+//
+// Op is one of: reserve (exclusive create of the final path), create-tmp,
+// write, fsync, close, rename, dirsync, remove.
+type VerifFSEvent struct {
+	Phase string
+	Op    string
+	Path  string
+	Path2 string // rename destination
+	Data  []byte // write: the bytes about to be / just written (not to be retained)
+}
+
+var verifFSCallback atomic.Pointer[func(VerifFSEvent)]
+
+// VerifSetFSCallback installs (or with nil removes) the process-wide callback.
+func VerifSetFSCallback(f func(VerifFSEvent)) {
+	if f == nil {
+		verifFSCallback.Store(nil)
+		return
+	}
+	verifFSCallback.Store(&f)
+}
+
+func verifFSEvent(phase, op, path, path2 string, data []byte) {
+	if cb := verifFSCallback.Load(); cb != nil {
+		(*cb)(VerifFSEvent{Phase: phase, Op: op, Path: path, Path2: path2, Data: data})
+	}
+}
+
+// VerifSetFileNameDraw overrides the base-name draw of CreateFile, so that a
+// test can force file-name collisions.
+func VerifSetFileNameDraw(fs *FileSystemDataStore, draw func() string) {
+	fs.drawFileName = draw
+}
